@@ -148,7 +148,7 @@ class Run:
         lines = [l for l in open(cases, encoding="utf-8").read().split("\n") if l.strip()]
         n = len(lines)
         self.cases += n
-        nproc = max(1, min(nproc or NCPU, (n + 49) // 50))
+        nproc = max(1, min(nproc or NCPU, (n + 3) // 4))
         shards = [lines[i::nproc] for i in range(nproc)]
         outs = []
         t = time.time()
@@ -167,14 +167,12 @@ class Run:
                 guard += 1
                 if guard > 200 + total // 2:
                     raise Infra("driver keeps crashing (%d restarts)" % guard)
-                try:
-                    p = subprocess.run([self.kdrive, "-in", cp, "-out", op, "-from", str(done)],
-                                       env=dict(os.environ, **(env or {})), capture_output=True, text=True, stdin=subprocess.DEVNULL,
-                                       timeout=max(case_timeout, 2 * case_timeout))
-                    rc, err = p.returncode, p.stderr
-                    hung = False
-                except subprocess.TimeoutExpired as ex:
-                    rc, err, hung = -9, (ex.stderr or b"").decode("utf-8", "replace") if isinstance(ex.stderr, bytes) else (ex.stderr or ""), True
+                e2 = dict(os.environ, **(env or {}))
+                e2["KDRIVE_CASE_TIMEOUT"] = str(case_timeout)
+                p = subprocess.run([self.kdrive, "-in", cp, "-out", op, "-from", str(done)],
+                                   env=e2, capture_output=True, text=True, stdin=subprocess.DEVNULL)
+                rc, err = p.returncode, p.stderr
+                hung = rc == 4
                 got = count_lines(op) if os.path.exists(op) else 0
                 if rc == 0 and got == total:
                     done = got
@@ -218,9 +216,9 @@ class Run:
             f.write(case_line + "\n")
         if os.path.exists(op):
             os.remove(op)
-        try:
-            p = subprocess.run([self.kdrive, "-in", cp, "-out", op], capture_output=True, text=True, timeout=case_timeout, stdin=subprocess.DEVNULL)
-        except subprocess.TimeoutExpired:
+        p = subprocess.run([self.kdrive, "-in", cp, "-out", op], capture_output=True, text=True, stdin=subprocess.DEVNULL,
+                           env=dict(os.environ, KDRIVE_CASE_TIMEOUT=str(case_timeout)))
+        if p.returncode == 4:
             return "hang: no result within %ss" % case_timeout
         if p.returncode != 0 and p.returncode != 3:
             return p.stderr or ("exit %d" % p.returncode)
@@ -235,9 +233,8 @@ class Run:
             f.write(line + "\n")
         if os.path.exists(op):
             os.remove(op)
-        try:
-            p = subprocess.run([self.kdrive, "-in", cp, "-out", op], capture_output=True, text=True, timeout=300, stdin=subprocess.DEVNULL)
-        except subprocess.TimeoutExpired:
+        p = subprocess.run([self.kdrive, "-in", cp, "-out", op], capture_output=True, text=True, stdin=subprocess.DEVNULL)
+        if p.returncode == 4:
             return {"case": case, "panic": "hang: no result", "site": "", "obs": {}}
         if p.returncode == 3:
             raise Infra("kdrive: " + p.stderr[-1000:])
